@@ -79,7 +79,7 @@ def r2(ctx):
     rule = "C10.R2"
     ctx.rule(rule, "T4 length-determinant discipline in the primitives: the fragment size returned by write_length_determinant is "
                    "used (or the length is provably below 16K), and every size read with read_length_determinant is compared with "
-                   "the 16K boundary or validated by the callee it is handed to")
+                   "the 16K boundary or validated by the callee it is handed to; a continuation loop of the writer is left only by comparing the fragment just announced with 16K (X.691 11.9.3.8.3)")
     with open(os.path.join(VERIF, "tables", "discharged_sites.json")) as fh:
         disc = json.load(fh).get("LD", {})
     nw, nr = ld_sites(ctx, rule, ("per/unaligned/mod.rs",), disc)
@@ -151,3 +151,5 @@ def run(ctx):
     r1(ctx)
     r2(ctx)
     r3(ctx)
+    from .c02 import r3 as sign_sensitivity
+    sign_sensitivity(ctx, rule="C10.R5")
